@@ -3,6 +3,7 @@
 //! extracted Coq model does for the same suite name.
 pub mod c14;
 pub mod c19;
+pub mod px;
 
 pub type Suite = fn(&[i128]) -> Vec<i128>;
 
@@ -12,6 +13,7 @@ pub fn suites() -> Vec<(&'static str, Suite)> {
         ("from_points", c14::run_from_points as Suite),
         ("c14_transform", c14::run_transform as Suite),
         ("c19", c19::run as Suite),
+        ("px", px::run as Suite),
     ]
 }
 
